@@ -8,6 +8,7 @@ CONSTANTS
   Routes = {"argv"}
   Layouts = {"flat"}
   Slim = TRUE
+  Spells = {"same"}
   HistKinds = {}
   MaxLookups = 0
 INVARIANT ArgvFirstWinsFollowsDocs
